@@ -5,4 +5,4 @@ set -e
 HERE=$(cd "$(dirname "$0")" && pwd)
 export CARGO_NET_OFFLINE=true
 cd "$HERE/engine/mdkfacts" && cargo build --release --offline
-cd "$HERE" && python3 engine/rules/extract.py mip04
+cd "$HERE" && PYTHONHASHSEED=0 python3 engine/rules/extract.py mip04 && PYTHONHASHSEED=0 python3 engine/rules/witness.py > /dev/null
